@@ -23,6 +23,7 @@ import (
 	"os/exec"
 	"path/filepath"
 	"regexp"
+	"runtime/debug"
 	"sort"
 	"strconv"
 	"strings"
@@ -49,14 +50,15 @@ func wat2cRefuses(c watgen.CtrlCase) string {
 	depth := uint32(len(c.Kinds))
 	for _, t := range c.Leaf.Targets {
 		if t == depth {
+			// findLabelName panics: the function body is not a label scope of wat2c
 			return "!branch-to-function-level"
 		}
 	}
-	if c.Result && c.Leaf.Op == watgen.OpBrIf {
-		// br_if to a label with a result: `assert(len(scopeResults) == 0)` in wat2c_func.go
-		if k := c.Leaf.Targets[0]; c.Kinds[len(c.Kinds)-1-int(k)] != watgen.CLoop {
-			return "!br_if-to-label-with-result"
-		}
+	if c.Result && (depth > 0 || c.Leaf.Op != watgen.OpReturn) {
+		// wat2c has no stack-polymorphic typing: a valued block must still statically leave its
+		// results after an unconditional branch (wat2c_func.go:195/219/246), br_if to a label with
+		// results is refused (:354), and a loop label counts its results as branch operands
+		return "!valued-construct"
 	}
 	return ""
 }
@@ -216,6 +218,7 @@ type ccJob struct {
 	Driver string          // path of the compiled driver object for this CC
 	CDir   string          // directory of driver.h
 	Keep   string          // if set, the work directory is kept under this path (debugging)
+	NoCC   bool            // translate only (development aid: list what wat2c refuses)
 }
 
 type cOut struct {
@@ -261,6 +264,26 @@ func clip(s string, n int) string {
 	return s
 }
 
+var frameRe = regexp.MustCompile(`wat2c/(wat2c[a-z_]*\.go:[0-9]+)`)
+
+// recoverAt runs f and returns a description of a panic with the wat2c source lines it came from.
+func recoverAt(f func()) (p string) {
+	defer func() {
+		if e := recover(); e != nil {
+			p = fmt.Sprint(e)
+			var at []string
+			for _, m := range frameRe.FindAllStringSubmatch(string(debug.Stack()), 4) {
+				at = append(at, m[1])
+			}
+			if len(at) > 0 {
+				p += " @ " + strings.Join(at, " < ")
+			}
+		}
+	}()
+	f()
+	return ""
+}
+
 func handleCC(raw json.RawMessage) interface{} {
 	var j ccJob
 	if err := json.Unmarshal(raw, &j); err != nil {
@@ -298,10 +321,10 @@ func handleCC(raw json.RawMessage) interface{} {
 		prefix := fmt.Sprintf("u%d", k)
 		var code, header []byte
 		var werr error
-		if p := mc.Recover(func() {
+		if p := recoverAt(func() {
 			_, code, header, werr = wat2c.Wat2C("unit.wat", []byte(u.Text), wat2c.Options{Prefix: prefix})
 		}); p != "" {
-			ur.Status, ur.Msg = "rejected", "panic: "+clip(p, 200)
+			ur.Status, ur.Msg = "rejected", "panic: "+clip(p, 300)
 			continue
 		}
 		if werr != nil {
@@ -309,6 +332,16 @@ func handleCC(raw json.RawMessage) interface{} {
 			continue
 		}
 		ur.CCode = clip(string(code), 6000)
+		if j.NoCC {
+			ur.Status = "translated"
+			continue
+		}
+		if j.Keep != "" {
+			os.WriteFile(filepath.Join(dir, prefix+".wat"), []byte(u.Text), 0o644)
+			if wasm, err := watexec.Assemble(u); err == nil {
+				os.WriteFile(filepath.Join(dir, prefix+".wasm"), wasm, 0o644)
+			}
+		}
 		os.WriteFile(filepath.Join(dir, prefix+".c"), code, 0o644)
 		os.WriteFile(filepath.Join(dir, prefix+".h"), header, 0o644)
 		os.WriteFile(filepath.Join(dir, prefix+"_glue.c"), []byte(glue(u, prefix)), 0o644)
@@ -501,10 +534,15 @@ func handleJob(raw json.RawMessage) interface{} {
 // ---------------------------------------------------------------------------------------------
 // classification
 
-// keyClass coarsens the operand class of a call for violation keys: an argument list that
-// contains a NaN is "nan" in the NaN positions and "*" elsewhere; static offsets are dropped from
-// memory address classes.
-func keyClass(c *watexec.Call) string {
+// keyClass coarsens the operand class of a call for violation keys. A missing trap (the engines
+// trap, the C code returns) and a trap on both sides with different memory are keyed per
+// instruction only ("*"): the defect is "no check", whatever the operand. Otherwise: an argument
+// list that contains a NaN is "nan" in the NaN positions and "*" elsewhere; the neighbours of the
+// truncation boundaries fold into small / big; static offsets are dropped from address classes.
+func keyClass(c *watexec.Call, perInstruction bool) string {
+	if perInstruction {
+		return "*"
+	}
 	parts := strings.Split(c.Class, ",")
 	hasNaN := false
 	for _, p := range parts {
@@ -512,14 +550,24 @@ func keyClass(c *watexec.Call) string {
 			hasNaN = true
 		}
 	}
+	exact := strings.HasPrefix(c.Instr, "select") || strings.Contains(c.Instr, "store") || strings.HasPrefix(c.Instr, "multi-value") || strings.HasPrefix(c.Instr, "global") || strings.HasPrefix(c.Instr, "local")
 	var out []string
 	for _, p := range parts {
 		switch {
 		case strings.HasPrefix(p, "offset="):
 			continue
-		case hasNaN && p != "nan" && !strings.HasPrefix(c.Instr, "select") && !strings.Contains(c.Instr, "store") && !strings.HasPrefix(c.Instr, "multi-value"):
+		case hasNaN && p != "nan" && !exact:
 			p = "*"
-		case p == "big" && !strings.Contains(c.Instr, "trunc") && strings.HasPrefix(c.Instr, "i"):
+		case strings.HasPrefix(p, "above(") || strings.HasPrefix(p, "below(") || strings.HasPrefix(p, "frac("):
+			neg := strings.Contains(p, "(-")
+			small := strings.HasSuffix(p, "(-1)") || strings.HasSuffix(p, "(1)")
+			p = map[bool]string{true: "small", false: "big"}[small]
+			if neg {
+				p = "-" + p
+			}
+		case (p == "half" || p == "-half") && !strings.Contains(c.Instr, "nearest"):
+			p = strings.Replace(p, "half", "small", 1)
+		case p == "big" && strings.HasPrefix(c.Instr, "i") && !strings.Contains(c.Instr, "trunc"):
 			p = "pos"
 		case p == "nbig":
 			p = "neg"
@@ -527,6 +575,22 @@ func keyClass(c *watexec.Call) string {
 		out = append(out, p)
 	}
 	return strings.Join(out, ",")
+}
+
+// refusedUnits are generated units wat2c refused when the check was built (frozen like the ctrl
+// shapes above): they are translated on every run and checked like the rest once accepted.
+var refusedUnits = map[string]string{
+	"call/multi-value-mixed-types": "a function with several results of different types that falls off its end: the results are popped in declaration order instead of reverse order and the operand type assertion fails (wat2c_func.go:150)",
+}
+
+func expectedRefusal(u *watexec.Unit) string {
+	if u.Part != "" {
+		return u.Part
+	}
+	if _, ok := refusedUnits[u.Name]; ok {
+		return "!" + u.Name
+	}
+	return ""
 }
 
 type cand struct {
@@ -548,7 +612,11 @@ func main() {
 			fmt.Fprintf(os.Stderr, "[%6.1fs] %s\n", time.Since(t0).Seconds(), what)
 		}
 	}
-	opt := watexec.OptKey{CtrlDepth: mc.Pick(r, 2, 3), CtrlGroup: 32, Partition: "wat2c", RecDepths: mc.Pick(r, []uint32{0, 1, 2, 10, 100, 1000}, []uint32{0, 1, 2, 3, 10, 100, 500, 1000, 1500})}
+	group := 32
+	if g, err := strconv.Atoi(os.Getenv("VERIF_CTRL_GROUP")); err == nil && g > 0 {
+		group = g // development aid
+	}
+	opt := watexec.OptKey{CtrlDepth: mc.Pick(r, 2, 3), CtrlGroup: group, Partition: "wat2c", RecDepths: mc.Pick(r, []uint32{0, 1, 2, 10, 100, 1000}, []uint32{0, 1, 2, 3, 10, 100, 500, 1000, 1500})}
 	compilers := mc.Pick(r, []string{"gcc -O1"}, []string{"gcc -O1", "clang -O0"})
 	configs := []string{watexec.WzCompiler, watexec.WzInterpreter}
 
@@ -599,6 +667,11 @@ func main() {
 		}
 	}
 	lap(fmt.Sprintf("%d units (%d corpus)", len(units), len(units)-nGen))
+	only := os.Getenv("VERIF_ONLY") // development aid: restrict to units whose name has this prefix
+	skip := func(u *watexec.Unit) bool { return only != "" && !strings.HasPrefix(u.Name, only) }
+	if only != "" {
+		r.Cap("VERIF_ONLY=" + only)
+	}
 
 	// driver object per compiler
 	work, err := os.MkdirTemp("", "c03-main-")
@@ -636,11 +709,14 @@ func main() {
 		}
 		weight := 0
 		for i, u := range units {
+			if skip(u) {
+				continue
+			}
 			w := 1
 			if i >= nGen {
 				w = 12 // compiler output: a big translation unit
 			}
-			if u.Part != "" {
+			if expectedRefusal(u) != "" {
 				w = 0 // expected to be refused: no C compilation
 			}
 			if weight+w > 12 {
@@ -661,7 +737,7 @@ func main() {
 		cres[cc] = make([]cUnitResult, len(units))
 	}
 	mkCC := func(b batch) ccJob {
-		j := ccJob{Kind: "cc", Opt: opt, CC: b.cc, Driver: driverObj[b.cc], CDir: cdir}
+		j := ccJob{Kind: "cc", Opt: opt, CC: b.cc, Driver: driverObj[b.cc], CDir: cdir, NoCC: os.Getenv("VERIF_C03_REFUSALS") != ""}
 		for _, i := range b.units {
 			if i >= nGen {
 				j.Units = append(j.Units, -1)
@@ -743,7 +819,7 @@ func main() {
 	}
 	var need []int
 	for i, u := range units {
-		if u.Part == "" {
+		if expectedRefusal(u) == "" && !skip(u) {
 			need = append(need, i)
 		}
 	}
@@ -790,7 +866,7 @@ func main() {
 	// units frozen as refused that wat2c now accepts: give them an oracle too
 	var late []int
 	for i, u := range units {
-		if u.Part == "" {
+		if expectedRefusal(u) == "" || skip(u) {
 			continue
 		}
 		for _, cc := range compilers {
@@ -811,6 +887,9 @@ func main() {
 	oracleDisagree := 0
 	sigSeen := map[string]bool{}
 	for i, u := range units {
+		if skip(u) {
+			continue
+		}
 		for _, cc := range compilers {
 			cr := &cres[cc][i]
 			stat[cc+"|"+cr.Status]++
@@ -818,21 +897,26 @@ func main() {
 			if len(compilers) > 1 && cc != compilers[0] {
 				tag = "|" + cc
 			}
-			famKey := u.Family + "/" + strings.SplitN(strings.TrimPrefix(u.Name, u.Family+"/"), ":", 2)[0]
-			if u.Family == "ctrl" {
+			famKey := u.Name
+			switch u.Family {
+			case "ctrl":
 				famKey = "ctrl"
-			}
-			if len(u.Calls) > 0 && u.Family != "ctrl" && u.Family != "corpus" {
+			case "num", "mem", "const":
 				famKey = u.Calls[0].Instr
-				if u.Family == "call" || u.Family == "var" || u.Family == "mod" || u.Family == "bulk" {
-					famKey = u.Name
-				}
 			}
 			switch cr.Status {
+			case "translated":
+				if expectedRefusal(u) != "" {
+					fmt.Fprintf(os.Stderr, "ACCEPTED-BUT-FROZEN-AS-REFUSED %s %q\n", u.Name, u.Calls[min(1, len(u.Calls)-1)].Instr)
+				}
+				continue
 			case "rejected":
+				if os.Getenv("VERIF_C03_REFUSALS") != "" {
+					fmt.Fprintf(os.Stderr, "REFUSED %s part=%q first=%q: %s\n", u.Name, u.Part, u.Calls[min(1, len(u.Calls)-1)].Instr, cr.Msg)
+				}
 				msg := numRe.ReplaceAllString(cr.Msg, "N")
-				if u.Part != "" {
-					refusedClasses[u.Part+" ("+clip(msg, 60)+")"]++
+				if er := expectedRefusal(u); er != "" {
+					refusedClasses[er+" ("+clip(msg, 80)+")"]++
 					continue
 				}
 				addCand(cand{i * 1000000, fmt.Sprintf("%s|wat2c-refuses%s", famKey, tag), fmt.Sprintf("%s: wat2c refuses a unit outside the frozen refused shapes: %s", u.Name, cr.Msg),
@@ -918,7 +1002,8 @@ func main() {
 				if cClass == "" {
 					continue
 				}
-				key := fmt.Sprintf("%s|%s|wasm=%s|c=%s%s", c.Instr, keyClass(c), wasmClass, cClass, tag)
+				perInstr := (ref[ci].Trap != "" && co.K == "ok") || strings.HasSuffix(cClass, "+memory-differs") || u.Family == "corpus"
+				key := fmt.Sprintf("%s|%s|wasm=%s|c=%s%s", c.Instr, keyClass(c, perInstr), wasmClass, cClass, tag)
 				cs := co.K
 				if co.K == "ok" {
 					cs = u.Canon(c, &asOutcome)
